@@ -7,6 +7,20 @@ Import ListNotations.
 Definition elt := nat.
 Inductive kind := KList | KSet.
 
+(* lazily evaluated iterables whose source is the very field that is assigned *)
+Inductive view :=
+| VRev                    (* reversed(x.f)            (lists only) *)
+| VIter                   (* iter(x.f) *)
+| VChain (vs : list elt)  (* itertools.chain(x.f, vs) *)
+| VFilterOut (x : elt).   (* (v for v in x.f if v is not x)  /  filter(...) *)
+Definition view_apply (v : view) (l : list elt) : list elt :=
+  match v with
+  | VRev => rev l
+  | VIter => l
+  | VChain vs => l ++ vs
+  | VFilterOut x => filter (fun y => negb (Nat.eqb y x)) l
+  end.
+
 Inductive op :=
 | Assign (vs : list elt)          (* x.f = [...]   /  x.f = {...}            a fresh collection *)
 | AssignSelf                      (* x.f = x.f *)
@@ -19,11 +33,15 @@ Inductive op :=
 | SetSliceIter (i j : Z) (vs : list elt)  (* x.f[i:j] = (v for v in ...)   the value is a one-shot iterator yielding vs *)
 | ExtendSelf                      (* x.f.extend(x.f) *)
 | Add (x : elt)
-| Update (vss : list (list elt)). (* x.f.update(it1, it2, ...) *)
+| Update (vss : list (list elt))  (* x.f.update(it1, it2, ...) *)
+| AssignView (v : view).          (* x.f = <a LAZY iterable over x.f itself>: Python evaluates it against the OLD contents *)
 
 Definition applicable (k : kind) (o : op) : bool :=
   match k, o with
   | _, Assign _ | _, AssignSelf | _, IAug _ => true
+  | KList, AssignView _ => true
+  | KSet, AssignView VRev => false   (* a set is not reversible *)
+  | KSet, AssignView _ => true
   | KList, Append _ | KList, Extend _ | KList, Insert _ _ | KList, SetItem _ _ | KList, SetSlice _ _ _ | KList, SetSliceIter _ _ _ | KList, ExtendSelf => true
   | KSet, Add _ | KSet, Update _ => true
   | _, _ => false
@@ -78,6 +96,8 @@ Definition py_step (k : kind) (o : op) (l : list elt) : list elt * bool :=
   | KList, ExtendSelf => (l ++ l, false)                         (* list.extend(self) doubles the list *)
   | KSet, Add x => (set_add x l, false)
   | KSet, Update vss => (fold_left set_union vss l, false)
+  | KList, AssignView v => (view_apply v l, false)
+  | KSet, AssignView v => (set_union [] (view_apply v l), false)    (* the set of what the view yields *)
   | _, _ => (l, false)
   end.
 
